@@ -16,6 +16,14 @@ fn incoming(cookie: &pavex::cookie::ResponseCookie<'static>) -> IncomingSession 
 }
 
 
+/// number of records in the in-memory backend: a fresh id can be created iff no live record uses it, so we
+/// count through `delete_expired` after shrinking every TTL is not possible from outside; instead we rely on
+/// `InMemorySessionStore` being `Clone` over a shared map and on `delete_expired` returning what it removed
+/// once the records have expired. Records here are written with a 1 ms TTL by the caller's config.
+async fn count_records(backend: &InMemorySessionStore) -> usize {
+    use pavex_session::store::SessionStorageBackend;
+    backend.delete_expired(None).await.unwrap()
+}
 #[tokio::test]
 async fn removed_server_key_stays_removed_on_next_request() {
     let store = SessionStore::new(InMemorySessionStore::new());
@@ -37,4 +45,128 @@ async fn removed_server_key_stays_removed_on_next_request() {
     let s3 = Session::new(&store, &config, Some(incoming(&c2)));
     let seen = s3.get_raw("k").await.unwrap().cloned();
     assert!(seen.is_none(), "WITNESS: request 3 still sees k = {seen:?} although request 2 removed it");
+}
+
+async fn first_cookie(store: &SessionStore, config: &SessionConfig) -> pavex::cookie::ResponseCookie<'static> {
+    let mut s1 = Session::new(store, config, None);
+    s1.insert("k", "v").await.unwrap();
+    s1.finalize().await.unwrap().expect("cookie")
+}
+
+#[tokio::test]
+async fn cycle_then_explicit_sync_then_finalize() {
+    let store = SessionStore::new(InMemorySessionStore::new());
+    let config = SessionConfig::default();
+    let c1 = first_cookie(&store, &config).await;
+    let mut s2 = Session::new(&store, &config, Some(incoming(&c1)));
+    s2.cycle_id();
+    s2.sync().await.expect("first sync");
+    let r = s2.finalize().await;
+    println!("finalize after cycle_id+sync (state not loaded): {:?}", r.as_ref().map(|c| c.is_some()).map_err(|e| format!("{e:?}")));
+    assert!(r.is_ok(), "WITNESS-A: finalize fails after cycle_id(); sync()");
+}
+
+#[tokio::test]
+async fn cycle_load_then_explicit_sync_then_finalize() {
+    let store = SessionStore::new(InMemorySessionStore::new());
+    let config = SessionConfig::default();
+    let c1 = first_cookie(&store, &config).await;
+    let mut s2 = Session::new(&store, &config, Some(incoming(&c1)));
+    let _ = s2.get_raw("k").await.unwrap();
+    s2.cycle_id();
+    s2.sync().await.expect("first sync");
+    let r = s2.finalize().await;
+    println!("finalize after load+cycle_id+sync: {:?}", r.as_ref().map(|c| c.is_some()).map_err(|e| format!("{e:?}")));
+    assert!(r.is_ok(), "WITNESS-B: finalize fails after get; cycle_id(); sync()");
+}
+
+#[tokio::test]
+async fn insert_sync_insert_finalize() {
+    let store = SessionStore::new(InMemorySessionStore::new());
+    let config = SessionConfig::default();
+    let mut s1 = Session::new(&store, &config, None);
+    s1.insert("a", 1).await.unwrap();
+    s1.sync().await.expect("first sync");
+    s1.insert("b", 2).await.unwrap();
+    let r = s1.finalize().await;
+    println!("new session insert+sync+insert+finalize: {:?}", r.as_ref().map(|c| c.is_some()).map_err(|e| format!("{e:?}")));
+    assert!(r.is_ok(), "WITNESS-C: finalize fails after insert; sync; insert on a new session");
+}
+
+#[tokio::test]
+async fn cycle_id_on_client_only_session() {
+    use pavex_session::config::{MissingServerState, ServerStateCreation};
+    let store = SessionStore::new(InMemorySessionStore::new());
+    let mut config = SessionConfig::default();
+    config.state.server_state_creation = ServerStateCreation::SkipIfEmpty;
+    config.state.missing_server_state = MissingServerState::Allow;
+    // request 1: client-side value only => cookie, no server record
+    let mut s1 = Session::new(&store, &config, None);
+    s1.client_mut().insert("c", 1).unwrap();
+    let c1 = s1.finalize().await.unwrap().expect("cookie");
+    // request 2: rotate the id (e.g. at login)
+    let mut s2 = Session::new(&store, &config, Some(incoming(&c1)));
+    s2.cycle_id();
+    let r = s2.finalize().await;
+    println!("cycle_id on client-only session: {:?}", r.as_ref().map(|c| c.is_some()).map_err(|e| format!("{e:?}")));
+    assert!(r.is_ok(), "WITNESS-D: finalize fails after cycle_id() on a session that has no server record");
+}
+
+#[tokio::test]
+async fn new_session_sync_then_invalidate_leaks_record() {
+    let backend = InMemorySessionStore::new();
+    let store = SessionStore::new(backend.clone());
+    let mut config = SessionConfig::default();
+    config.state.ttl = std::time::Duration::from_millis(1);
+    let mut s1 = Session::new(&store, &config, None);
+    s1.insert("a", 1).await.unwrap();
+    s1.sync().await.unwrap();
+    s1.invalidate();
+    let r = s1.finalize().await;
+    assert!(r.is_ok(), "finalize after invalidate must succeed");
+    // every record created by this (new) session must be gone: expire everything and count what was still there
+    tokio::time::sleep(std::time::Duration::from_millis(5)).await;
+    let left = count_records(&backend).await;
+    assert_eq!(left, 0, "WITNESS-LEAK: the record created by the explicit sync survives invalidate()");
+}
+
+#[tokio::test]
+async fn new_session_insert_sync_finalize() {
+    let store = SessionStore::new(InMemorySessionStore::new());
+    let config = SessionConfig::default();
+    let mut s1 = Session::new(&store, &config, None);
+    s1.insert("a", 1).await.unwrap();
+    s1.sync().await.expect("first sync");
+    let r = s1.finalize().await;
+    println!("new session insert+sync+finalize: {:?}", r.as_ref().map(|c| c.is_some()).map_err(|e| format!("{e:?}")));
+    assert!(r.is_ok(), "WITNESS-E");
+}
+
+#[tokio::test]
+async fn server_insert_on_client_only_session() {
+    use pavex_session::config::{MissingServerState, ServerStateCreation};
+    let store = SessionStore::new(InMemorySessionStore::new());
+    let mut config = SessionConfig::default();
+    config.state.server_state_creation = ServerStateCreation::SkipIfEmpty;
+    config.state.missing_server_state = MissingServerState::Allow;
+    let mut s1 = Session::new(&store, &config, None);
+    s1.client_mut().insert("c", 1).unwrap();
+    let c1 = s1.finalize().await.unwrap().expect("cookie");
+    let mut s2 = Session::new(&store, &config, Some(incoming(&c1)));
+    s2.insert("k", "v").await.unwrap();
+    let r = s2.finalize().await;
+    println!("server insert on client-only session: {:?}", r.as_ref().map(|c| c.is_some()).map_err(|e| format!("{e:?}")));
+    assert!(r.is_ok(), "WITNESS-G: finalize fails after a server-side insert on an existing session that has no server record");
+}
+
+#[tokio::test]
+async fn new_session_client_insert_sync_finalize() {
+    let store = SessionStore::new(InMemorySessionStore::new());
+    let config = SessionConfig::default();
+    let mut s1 = Session::new(&store, &config, None);
+    s1.client_mut().insert("c", 1).unwrap();
+    s1.sync().await.expect("first sync");
+    let r = s1.finalize().await;
+    println!("new session client insert+sync+finalize: {:?}", r.as_ref().map(|c| c.is_some()).map_err(|e| format!("{e:?}")));
+    assert!(r.is_ok(), "WITNESS-F");
 }
